@@ -4,6 +4,7 @@ import (
 	"bytes"
 	"errors"
 	"fmt"
+	"math"
 	"strconv"
 	"strings"
 	"time"
@@ -368,6 +369,14 @@ func (s *Server) cmdSearchArgs(
 		if b1 == b2 {
 			err = fmt.Errorf("equal bearings (%s == %s), use CIRCLE instead", sb1, sb2)
 			return
+		}
+		// the sector builder steps from one bearing to the other and never
+		// finishes for a bearing, radius or origin that is not a finite number
+		for i, f := range []float64{lat, lon, meters, b1, b2} {
+			if math.IsNaN(f) || math.IsInf(f, 0) {
+				err = errInvalidArgument([]string{slat, slon, smeters, sb1, sb2}[i])
+				return
+			}
 		}
 
 		origin := sectr.Point{Lng: lon, Lat: lat}
